@@ -50,12 +50,14 @@ func (a *UDPAssocRec) AddPacketFromTarget(status string, tp, pc int64) {
 	}
 }
 func (a *UDPAssocRec) RemoveNatEntry() {
-	a.mu.Lock()
-	a.Removed = append(a.Removed, time.Now())
-	a.mu.Unlock()
+	// the real collector first: whoever sees the removal in the record may rely on the
+	// collector having processed it (e.g. before advancing a controlled clock)
 	if a.tee != nil {
 		a.tee.RemoveNatEntry()
 	}
+	a.mu.Lock()
+	a.Removed = append(a.Removed, time.Now())
+	a.mu.Unlock()
 }
 
 type UDPAssocSnap struct {
@@ -80,10 +82,11 @@ type UDPRec struct {
 }
 
 func (r *UDPRec) AddUDPNatEntry(clientAddr net.Addr, accessKey string) service.UDPConnMetrics {
-	a := &UDPAssocRec{Client: clientAddr.String(), Key: accessKey, Added: time.Now()}
+	a := &UDPAssocRec{Client: clientAddr.String(), Key: accessKey}
 	if r.tee != nil {
 		a.tee = r.tee.AddUDPNatEntry(clientAddr, accessKey)
 	}
+	a.Added = time.Now()
 	r.mu.Lock()
 	r.Assocs = append(r.Assocs, a)
 	r.mu.Unlock()
